@@ -198,6 +198,104 @@ THEOREM VogpRound ==
   <2> QED BY <2>1, <2>2
 <1> QED BY <1>a, <1>1, <1>2
 
+(* ------------------------------------------------------------------ Auer (C01) *)
+HeldOf(ex0, S0, P0) == \A i \in S0 : \A k \in P0 : <<i,k>> \notin ex0
+ValidA(wd0, ex0, S0, gt, mc, nd, r) ==
+   /\ \A i \in S0 : \A j \in S0 \ {i} : <<i,j>> \in gt => <<i,j>> \in wd0 /\ r[j] > r[i]          \* A1 + rank
+   /\ \A i \in S0 : \A j \in S0 \ {i} : <<i,j>> \in ex0 => \/ <<i,j>> \in gt                       \* (then i is discarded this round)
+                                                              \/ <<i,j>> \in mc /\ <<i,j>> \in nd       \* A3, A4
+
+THEOREM AuerRound ==
+  ASSUME NEW D, NEW wd, NEW ex, NEW S, NEW P, NEW gt, NEW mc, NEW nd, NEW B \in Nat, NEW r \in [D -> 0..B],
+         S \subseteq D, P \subseteq D, S \cap P = {},
+         TruthAx(D, wd, ex), ValidA(wd, ex, S, gt, mc, nd, r),
+         CoverOf(D, wd, S, P), HeldOf(ex, S, P), GapOf(D, ex, P)
+  PROVE  LET x == AuerStep(S, P, gt, mc, nd) IN
+         CoverOf(D, wd, x.S, x.P) /\ HeldOf(ex, x.S, x.P) /\ GapOf(D, ex, x.P)
+<1> DEFINE Dc == AuerDisc(S, gt)
+           S1 == S \ Dc
+           P1 == AuerP1(S1, mc)
+           NP == AuerNewP(S1, P1, nd)
+           S2 == S1 \ NP
+           P2 == P \cup NP
+<1>a. AuerStep(S, P, gt, mc, nd).S = S2 /\ AuerStep(S, P, gt, mc, nd).P = P2
+  BY DEF AuerStep
+<1>b. Dc \subseteq S /\ P1 \subseteq S1 /\ NP \subseteq P1 /\ S2 \cup P2 = S1 \cup P /\ S1 \subseteq D
+  BY DEF AuerDisc, AuerP1, AuerNewP
+<1>c. \A i \in Dc : \E j \in S1 : <<i,j>> \in wd
+  <2> DEFINE U0 == {}
+  <2>1. Dc = PavebaDisc(S, U0, gt) /\ S1 = (S \cup U0) \ PavebaDisc(S, U0, gt)
+    BY DEF AuerDisc, PavebaDisc
+  <2>2. \A i \in S : \A j \in (S \cup U0) \ {i} : <<i,j>> \in gt => <<i,j>> \in wd /\ r[j] > r[i]
+    BY DEF ValidA
+  <2>3. U0 \subseteq D
+    OBVIOUS
+  <2>4. \A i, j, k \in D : <<i,j>> \in wd /\ <<j,k>> \in wd => <<i,k>> \in wd
+    BY DEF TruthAx
+  <2>5. \A i \in PavebaDisc(S, U0, gt) : \E j \in (S \cup U0) \ PavebaDisc(S, U0, gt) : <<i,j>> \in wd
+    <3> HIDE DEF U0
+    <3> QED BY <2>2, <2>3, <2>4, ChainLemma
+  <2> QED BY <2>1, <2>5
+<1>e. \A i \in D : \E j \in S1 \cup P : <<i,j>> \in wd
+  <2> SUFFICES ASSUME NEW i \in D PROVE \E j \in S1 \cup P : <<i,j>> \in wd
+    OBVIOUS
+  <2>1. PICK j0 \in S \cup P : <<i,j0>> \in wd
+    BY DEF CoverOf, TruthAx
+  <2>2. CASE j0 \in Dc
+    <3>1. PICK k \in S1 : <<j0,k>> \in wd
+      BY <2>2, <1>c
+    <3> QED BY <2>1, <3>1, <1>b DEF TruthAx
+  <2>3. CASE j0 \notin Dc
+    BY <2>1, <2>3
+  <2> QED BY <2>2, <2>3
+<1>1. CoverOf(D, wd, S2, P2)
+  BY <1>e, <1>b DEF CoverOf
+<1>2. HeldOf(ex, S2, P2)
+  <2> SUFFICES ASSUME NEW i \in S2, NEW k \in P2, <<i,k>> \in ex PROVE FALSE
+    BY DEF HeldOf
+  <2>0. i \in S1 /\ i \in S /\ i \in D /\ i \notin NP
+    BY <1>b
+  <2>1. CASE k \in P
+    BY <2>1, <2>0 DEF HeldOf
+  <2>2. CASE k \in NP
+    <3>1. k \in P1 /\ k \in S1 /\ k \in S /\ k \in D
+      BY <2>2, <1>b
+    <3>2. k # i
+      BY <2>0, <3>1 DEF TruthAx
+    <3>g. <<i,k>> \notin gt
+      BY <2>0, <3>1, <3>2 DEF AuerDisc
+    <3>3. <<i,k>> \in mc /\ <<i,k>> \in nd
+      BY <2>0, <3>1, <3>2, <3>g DEF ValidA
+    <3>4. i \notin P1
+      BY <2>0, <3>1, <3>2, <3>3 DEF AuerP1
+    <3>5. k \notin NP
+      BY <2>0, <3>3, <3>4 DEF AuerNewP
+    <3> QED BY <2>2, <3>5
+  <2> QED BY <2>1, <2>2
+<1>3. GapOf(D, ex, P2)
+  <2> SUFFICES ASSUME NEW i \in P2, NEW j \in D, <<i,j>> \in ex PROVE FALSE
+    BY DEF GapOf
+  <2>1. CASE i \in P
+    BY <2>1 DEF GapOf
+  <2>2. CASE i \in NP
+    <3>1. i \in P1 /\ i \in S1 /\ i \in S /\ i \in D
+      BY <2>2, <1>b
+    <3>2. PICK k \in S1 \cup P : <<j,k>> \in wd
+      BY <1>e
+    <3>3. k \in D /\ <<i,k>> \in ex /\ k # i
+      BY <3>1, <3>2, <1>b DEF TruthAx
+    <3>4. CASE k \in P
+      BY <3>1, <3>3, <3>4 DEF HeldOf
+    <3>5. CASE k \in S1
+      <4>0. k \in S /\ <<i,k>> \notin gt
+        BY <3>1, <3>3, <3>5, <1>b DEF AuerDisc
+      <4>1. <<i,k>> \in mc
+        BY <3>1, <3>3, <3>5, <4>0, <1>b DEF ValidA
+      <4> QED BY <3>1, <3>3, <3>5, <4>1 DEF AuerP1
+    <3> QED BY <3>2, <3>4, <3>5
+  <2> QED BY <2>1, <2>2
+<1> QED BY <1>a, <1>1, <1>2, <1>3
+
 (* ------------------------------------------------------------------ whole runs *)
 CONSTANTS D, wd, ex          \* for VOGP / eps-PAL: wd is read as sd (mu_j + slack dominates mu_i), ex as mo (by more than the slack)
 VARIABLES S, P, U
@@ -276,4 +374,39 @@ THEOREM VogpAccurate == VSpec => [](VInv /\ AccurateV)
 <1>3. VInv => AccurateV
   BY DEF VInv, AccurateV, IsoOf, NoMoOf
 <1> QED BY <1>1, <1>2, <1>3, PTL DEF VSpec
+ANext == \E gt \in SUBSET (D \X D), mc \in SUBSET (D \X D), nd \in SUBSET (D \X D), B \in Nat : \E r \in [D -> 0..B] :
+           /\ ValidA(wd, ex, S, gt, mc, nd, r)
+           /\ LET x == AuerStep(S, P, gt, mc, nd) IN S' = x.S /\ P' = x.P /\ U' = x.U
+ASpec == Init /\ [][ANext]_vars
+AInv  == /\ S \subseteq D /\ P \subseteq D /\ S \cap P = {}
+         /\ CoverOf(D, wd, S, P) /\ HeldOf(ex, S, P) /\ GapOf(D, ex, P)
+
+\* C01 (Auer): same statement; the hold-back rule of pareto_updating is what keeps HeldOf
+THEOREM AuerAccurate == ASSUME TruthAx(D, wd, ex) PROVE ASpec => [](AInv /\ AccurateP)
+<1>1. Init => AInv
+  BY DEF Init, AInv, CoverOf, HeldOf, GapOf
+<1>2. AInv /\ [ANext]_vars => AInv'
+  <2> SUFFICES ASSUME AInv, [ANext]_vars PROVE AInv'
+    OBVIOUS
+  <2>1. CASE UNCHANGED vars
+    BY <2>1 DEF vars, AInv, CoverOf, HeldOf, GapOf
+  <2>2. CASE ANext
+    <3>0. PICK gt \in SUBSET (D \X D), mc \in SUBSET (D \X D), nd \in SUBSET (D \X D), B \in Nat : \E r \in [D -> 0..B] :
+               /\ ValidA(wd, ex, S, gt, mc, nd, r)
+               /\ LET x == AuerStep(S, P, gt, mc, nd) IN S' = x.S /\ P' = x.P /\ U' = x.U
+      BY <2>2 DEF ANext
+    <3>1. PICK r \in [D -> 0..B] :
+               /\ ValidA(wd, ex, S, gt, mc, nd, r)
+               /\ LET x == AuerStep(S, P, gt, mc, nd) IN S' = x.S /\ P' = x.P /\ U' = x.U
+      BY <3>0
+    <3>2. LET x == AuerStep(S, P, gt, mc, nd) IN
+          CoverOf(D, wd, x.S, x.P) /\ HeldOf(ex, x.S, x.P) /\ GapOf(D, ex, x.P)
+      BY <3>1, AuerRound DEF AInv
+    <3>3. LET x == AuerStep(S, P, gt, mc, nd) IN x.S \subseteq D /\ x.P \subseteq D /\ x.S \cap x.P = {}
+      BY DEF AInv, AuerStep, AuerDisc, AuerP1, AuerNewP
+    <3> QED BY <3>1, <3>2, <3>3 DEF AInv
+  <2> QED BY <2>1, <2>2
+<1>3. AInv => AccurateP
+  BY DEF AInv, AccurateP, CoverOf, GapOf
+<1> QED BY <1>1, <1>2, <1>3, PTL DEF ASpec
 =============================================================================
